@@ -15,6 +15,7 @@ from .C03 import _canon
 from .common import generic_replay, run_families, std_case
 
 ROOT = os.path.dirname(os.path.dirname(os.path.dirname(os.path.abspath(__file__))))
+from ..rundir import GEN as _GEN  # noqa: E402
 EXTRA_PROOF_FILES = ["generated/Facts_twins.v"]
 ASSUMPTIONS = [
     "user-written validators are coherent: when their sync entry returns, their async entry returns the same (user_coherent)",
@@ -35,7 +36,7 @@ def regenerate_facts():
 
 def _regenerate_twin_facts():
     try:
-        d = twins.emit(os.environ.get("KV_REPO", "/repo"), os.path.join(ROOT, "coq", "generated", "Facts_twins.v"))
+        d = twins.emit(os.environ.get("KV_REPO", "/repo"), os.path.join(_GEN, "Facts_twins.v"))
         if d["unclassified"]:
             return True, "twin residue not in the benign list: " + "; ".join(
                 f"{f}:{o}.{n}:{side}: {st[:120]!r}" for f, o, n, side, st in d["unclassified"][:3])
